@@ -80,6 +80,7 @@ type poolRun struct {
 	viols   []poolViol
 	stats   map[string]int64
 	shape   map[string]bool
+	foreign []string // keys of txs committed by blocks produced elsewhere, never given to the pool before
 }
 
 func newPoolRun(prop string, cfg poolCfg) *poolRun {
@@ -97,10 +98,7 @@ func (pr *poolRun) newPool() {
 	lg := logrus.New()
 	lg.SetOutput(ioutil.Discard)
 	lg.SetLevel(logrus.PanicLevel)
-	led := map[string]uint64{}
-	for k, v := range pr.ledger {
-		led[k] = v
-	}
+	led := pr.ledger // live: the pool reads the ledger's nonce whenever it first meets an account
 	pr.pool = mempool.NewMemPool(&mempool.Config{
 		ID: 1, BatchSize: pr.cfg.BatchSize, PoolSize: pr.cfg.PoolSize, TxSliceSize: 3, ChainHeight: pr.seq, Logger: lg,
 		GetAccountNonce: func(a *types.Address) uint64 { return led[a.String()] },
@@ -258,6 +256,39 @@ func (pr *poolRun) apply(op poolOp) {
 		pr.pool.CommitTransactions(&mempool.ChainState{Height: pr.seq, TxHashList: hashes})
 		pr.stats["commits"]++
 		pr.observe(false)
+	case "foreign":
+		// a block produced by another node with txs this pool was never given: the ledger advances first
+		// (the executor persists before it reports), then the commit notification arrives
+		var hashes []*types.Hash
+		for _, k := range op.Txs {
+			tx := mkPoolTx(k)
+			hashes = append(hashes, tx.GetHash())
+			pr.m.CommitForeign(tx.GetFrom().String(), tx.GetNonce()+1)
+			pr.foreign = append(pr.foreign, k)
+		}
+		for _, a := range pr.m.Accounts() {
+			pr.ledger[a] = pr.m.Commit(a)
+		}
+		pr.pool.CommitTransactions(&mempool.ChainState{Height: pr.seq, TxHashList: hashes})
+		pr.stats["foreign_commits"]++
+		pr.observe(false)
+	case "minted":
+		// a block minted elsewhere contains the next ready txs of an account: all replicas mark them
+		var txs []pb.Transaction
+		var mt []model.PoolTx
+		for _, h := range op.Hashes {
+			if tx := pr.pool.GetTransaction(types.NewHashByStr(h)); tx != nil {
+				txs = append(txs, tx)
+				mt = append(mt, toModelTx(tx))
+			}
+		}
+		if len(txs) > 0 {
+			pr.pool.MarkBatched(txs)
+			pr.m.MarkBatched(mt)
+			pr.batches = append(pr.batches, txs)
+			pr.stats["minted_elsewhere"]++
+		}
+		pr.observe(false)
 	case "evict":
 		d := 1000 * time.Hour
 		if op.Arg < 0 {
@@ -301,7 +332,7 @@ func (pr *poolRun) gen(r *rand.Rand, nAcct int, ts *int64, known map[string]stri
 	op := poolOp{}
 	x := r.Intn(100)
 	switch {
-	case x < 48: // arrivals
+	case x < 48: // arrivals (x in 48..53: foreign block / block minted elsewhere)
 		op.Op = "process"
 		n := 1 + r.Intn(4)
 		for i := 0; i < n; i++ {
@@ -336,6 +367,12 @@ func (pr *poolRun) gen(r *rand.Rand, nAcct int, ts *int64, known map[string]stri
 			case 1:
 				t = 1000 // many equal timestamps
 			}
+			if len(pr.foreign) > 0 && r.Intn(7) == 0 {
+				// a client re-sends a tx that a block produced elsewhere has already committed
+				op.Txs = append(op.Txs, pr.foreign[r.Intn(len(pr.foreign))])
+				op.Note = "resend-foreign-committed"
+				continue
+			}
 			id := fmt.Sprintf("%d/%d/%d", acct, nonce, variant)
 			key, ok := known[id]
 			if !ok {
@@ -346,6 +383,35 @@ func (pr *poolRun) gen(r *rand.Rand, nAcct int, ts *int64, known map[string]stri
 		}
 		op.Leader = r.Intn(3) != 0
 		op.Local = r.Intn(2) == 0
+	case x < 51:
+		op.Op = "foreign"
+		acct := r.Intn(nAcct)
+		addr := poolAcctAddr(acct).String()
+		base := pr.m.Commit(addr)
+		k := 1 + r.Intn(3)
+		for i := 0; i < k; i++ {
+			*ts++
+			op.Txs = append(op.Txs, fmt.Sprintf("%d/%d/%d@%d", acct, base+uint64(i), 7, *ts))
+		}
+		op.Note = "commit-foreign"
+		if pr.m.Next(addr) > base {
+			op.Note = "commit-foreign-over-own-batch"
+		}
+	case x < 54:
+		op.Op = "minted"
+		for _, a := range pr.m.Accounts() {
+			nx, pend := pr.m.Next(a), pr.m.Pending(a)
+			if pend > nx {
+				k := uint64(1 + r.Intn(3))
+				for _, tx := range pr.m.Held() {
+					if tx.Account == a && tx.Nonce >= nx && tx.Nonce < nx+k && tx.Nonce < pend {
+						op.Hashes = append(op.Hashes, tx.Hash)
+					}
+				}
+				op.Note = "minted-elsewhere"
+				break
+			}
+		}
 	case x < 66:
 		op.Op = "generate"
 	case x < 86:
